@@ -31,6 +31,13 @@ func Load(dir, pattern, harnessDir string) (*Program, error) {
 	pkgdir := filepath.Join(dir, pattern)
 	sub := filepath.Join(harnessDir, filepath.Base(pkgdir))
 	ents, _ := os.ReadDir(sub)
+	if filepath.Base(pkgdir) != "slog" {
+		// the intrinsic declarations are shared: re-package the slog copy
+		if b, err := os.ReadFile(filepath.Join(harnessDir, "slog", "v_engine.go")); err == nil {
+			b = []byte(strings.Replace(string(b), "package slog", "package "+filepath.Base(pkgdir), 1))
+			overlay[filepath.Join(pkgdir, "zz_verif_v_engine.go")] = b
+		}
+	}
 	for _, e := range ents {
 		if strings.HasSuffix(e.Name(), ".go") && !strings.HasSuffix(e.Name(), "_test.go") && !strings.HasSuffix(e.Name(), "_native.go") {
 			b, err := os.ReadFile(filepath.Join(sub, e.Name()))
